@@ -517,12 +517,19 @@ func main() {
 	overlay := map[string]string{}
 	absDir, _ := filepath.Abs(*dir)
 	syncUsers := 0
+	goStmts := 0
 	for i, f := range pkg.Syntax {
 		name := pkg.CompiledGoFiles[i]
 		base := filepath.Base(name)
 		if strings.HasPrefix(base, "verif_") || strings.HasSuffix(base, "_test.go") {
 			continue
 		}
+		ast.Inspect(f, func(n ast.Node) bool {
+			if _, ok := n.(*ast.GoStmt); ok {
+				goStmts++
+			}
+			return true
+		})
 		// redirect sync imports to the shims
 		for _, imp := range f.Imports {
 			p, _ := strconv.Unquote(imp.Path.Value)
@@ -597,7 +604,7 @@ func main() {
 	for _, s := range in.sites {
 		kinds[s.Kind]++
 	}
-	rep := map[string]interface{}{"sites": len(in.sites), "by_kind": kinds, "skipped": in.skipped, "globals": globals, "files": len(overlay) - 4, "sync_imports_redirected": syncUsers}
+	rep := map[string]interface{}{"sites": len(in.sites), "by_kind": kinds, "skipped": in.skipped, "globals": globals, "files": len(overlay) - 4, "sync_imports_redirected": syncUsers, "go_statements": goStmts}
 	rb, _ := json.MarshalIndent(rep, "", " ")
 	os.WriteFile(filepath.Join(*out, "report.json"), rb, 0o644)
 	sb, _ := json.Marshal(in.sites)
